@@ -126,14 +126,20 @@ class MetricReceiver(CarbonServerProtocol, TimeoutMixin):
       log.listener("%s connection with %s established" % (
         self.__class__.__name__, self.peerName))
 
-    if state.metricReceiversPaused:
-      self.pauseReceiving()
-
-    state.connectedMetricReceiverProtocols.add(self)
-    checkIfAcceptingConnections()
+    # Subscribe before looking at the flag: the cache's writer thread may resume
+    # the receivers while we are connecting.
     if settings.USE_FLOW_CONTROL:
       events.pauseReceivingMetrics.addHandler(self.pauseReceiving)
       events.resumeReceivingMetrics.addHandler(self.resumeReceiving)
+
+    if state.metricReceiversPaused:
+      self.pauseReceiving()
+      if not state.metricReceiversPaused:
+        # resumed in the meantime, possibly before our handler was called
+        self.resumeReceiving()
+
+    state.connectedMetricReceiverProtocols.add(self)
+    checkIfAcceptingConnections()
 
   def getPeerName(self):
     if hasattr(self.transport, 'getPeer'):
